@@ -510,7 +510,10 @@ impl DepthFirstSearch {
         }
 
         // String (quoted)
-        if (s.starts_with('"') && s.ends_with('"')) || (s.starts_with('\'') && s.ends_with('\'')) {
+        if s.len() >= 2
+            && ((s.starts_with('"') && s.ends_with('"'))
+                || (s.starts_with('\'') && s.ends_with('\'')))
+        {
             return Value::String(s[1..s.len() - 1].to_string());
         }
 
@@ -1107,7 +1110,10 @@ impl BreadthFirstSearch {
         }
 
         // String (quoted)
-        if (s.starts_with('"') && s.ends_with('"')) || (s.starts_with('\'') && s.ends_with('\'')) {
+        if s.len() >= 2
+            && ((s.starts_with('"') && s.ends_with('"'))
+                || (s.starts_with('\'') && s.ends_with('\'')))
+        {
             return Value::String(s[1..s.len() - 1].to_string());
         }
 
